@@ -139,7 +139,8 @@ def simple_programs():
     yield 'comment', [T('a'), ['comment', [T('c')] + BODY], T('b')]
     # literal text that looks like the beginning of an entity reference,
     # before, between and after real tags (with and without a later ';')
-    for frag in ('AT&dtml-T ', '&dtml.a b', 'x &dtml- y', '&dtml-', '&dtml'):
+    for frag in ('AT&dtml-T ', '&dtml.a b', 'x &dtml- y', '&dtml-', '&dtml',
+                 '&dtml.upper-;', '&dtml.upper-', '&dtml..x;', '&dtml.-;'):
         for tail in ('', ' ; ', ';'):
             yield 'neartag', [T(frag), ['var', N('x'), []], T(tail),
                               ['var', N('y'), [['upper', None]]], T(frag)]
